@@ -43,6 +43,19 @@ def rand_expr(r, depth):
     return (op, rand_expr(r, depth - 1), rand_expr(r, depth - 1))
 
 
+BIG_LEAVES = [("c", 2147483647), ("c", 65536), ("c", 46341), ("c", 31), ("c", 32), ("c", 33), ("c", 1), ("c", 2), ("c", 0),
+              ("v", "a"), ("v", "b"), ("v", "c")]
+
+
+def rand_expr_big(r, depth):
+    """operands near the ends of the int range, unrestricted shift counts"""
+    if depth == 0 or r.random() < 0.15: return r.choice(BIG_LEAVES)
+    x = r.random()
+    if x < 0.15: return ("neg", rand_expr_big(r, depth - 1))
+    op = r.choice(["+", "-", "*", "/", "%", "<<", ">>", "+", "-", "*", "==", "<", ">="])
+    return (op, rand_expr_big(r, depth - 1), rand_expr_big(r, depth - 1))
+
+
 def all_exprs(depth, leaves=None, ops=None):
     leaves = leaves or [("c", 0), ("c", 2), ("c", 7), ("v", "a"), ("v", "b")]
     ops = ops or BIN
